@@ -397,6 +397,13 @@ class Exec:
                 for fname, lst in prog.fns.items():
                     if fname.endswith('::' + prom) and strip_generics(fname[:-(len(prom) + 2)]) == owner:
                         cands += lst
+            if not cands:
+                # the dump prints some bodies (closures) with a shorter path than the one used to refer to them
+                for fname, lst in prog.fns.items():
+                    if fname.endswith('::' + prom):
+                        short = strip_generics(fname[:-(len(prom) + 2)])
+                        if '::' in short and owner.endswith('::' + short):
+                            cands += lst
         else:
             last = bare.split('::')[-1]
             for f in prog.by_last.get(last, []):
@@ -884,7 +891,14 @@ class Exec:
         return v      # array -> slice: the value keeps its elements
 
     def transmute(self, v, opnd, ty, st, fr, fn):
-        if isinstance(v, Struct) and all(z3.is_int_value(z3.simplify(x)) and z3.simplify(x).as_long() == 0 for x in v.f if x is not None):
+        if ty.strip().startswith('*') or ty.strip().startswith('&'):
+            # a pointer newtype (NonNull / Unique) reinterpreted as the raw pointer it wraps
+            w = v
+            while isinstance(w, Struct) and len(w.f) == 1:
+                w = w.f[0]
+            if isinstance(w, (Ref, Ptr)):
+                return w
+        if isinstance(v, Struct) and all(isinstance(x, z3.ExprRef) for x in v.f if x is not None) and all(z3.is_int_value(z3.simplify(x)) and z3.simplify(x).as_long() == 0 for x in v.f if x is not None):
             # zeroed byte array reinterpreted as a struct: all-zero value of that struct
             return self.zero_value(ty)
         if isinstance(v, (Opaque, Ref, Ptr, Dyn, IteDyn)):
@@ -912,6 +926,9 @@ class Exec:
             k = s.index('}')
             rest = s[k + 1:].strip()
             caps = [self.operand(x, st, fr) for x in split_top(rest[1:-1])] if rest.startswith('(') and len(rest) > 2 else []
+            if rest.startswith('{') and rest.endswith('}') and rest[1:-1].strip():
+                # captures printed with their names: `{ dispatchbox: move _8 }`
+                caps = [self.operand(part[part.index(':') + 1:], st, fr) for part in split_top(rest[1:-1])]
             return Struct(caps)
         s2 = strip_generics(s)
         m = re.match(r'([\w:<> ,&\'\[\];*]+?)\s*\{(.*)\}$', s2, flags=re.S)
@@ -1168,7 +1185,9 @@ class Exec:
             if len(tgt) == 1 and tgt[0][0] is None:
                 _, f, l, p = tgt[0]
                 if st.mem.get((f, l)) is not None or p:
-                    self._drop_value(st, Ref(f, l, p), ty, fn, 0)
+                    more = self._drop_value(st, Ref(f, l, p), ty, fn, 0)
+                    for s2 in more or []:
+                        work.append((nxt, s2, False))
         return nxt
 
     def _drop_value(self, st, ref, ty, fn, depth):
@@ -1184,19 +1203,27 @@ class Exec:
         if v is None or isinstance(v, Opaque):
             return
         cands = self.prog.resolve('<%s as Drop>::drop' % b, 1)
+        extra = []
         if len(cands) == 1:
             outs = self.inline(cands[0], [ref], st)
-            if len(outs) != 1:
-                raise EngineError('Drop impl of %s forks' % b)
+            if len(outs) != 1 and depth > 0:
+                raise EngineError('Drop impl of %s (a field) forks' % b)
+            if not outs:
+                raise EngineError('Drop impl of %s has no returning path' % b)
+            outs = sorted(outs, key=lambda o: 0 if o[0] is st else 1)
             s2 = outs[0][0]
             if s2 is not st:
                 st.mem, st.pc, st.trace, st.visits = s2.mem, s2.pc, s2.trace, s2.visits
+            # a Drop impl with several paths (e.g. one that reports how the thread ended): the other paths continue separately
+            extra = [o[0] for o in outs[1:]]
         ftys = self.prog.struct_field_types.get(b)
         if ftys and isinstance(v, Struct) and len(v.f) == len(ftys):
             for i, ft in enumerate(ftys):
                 fb = base_type_name(ft)
                 if re.fullmatch(r'\w+', fb or '') and (self.prog.resolve('<%s as Drop>::drop' % fb, 1) or fb in self.prog.struct_field_types):
-                    self._drop_value(st, Ref(ref.frame, ref.local, ref.path + (i,)), ft, fn, depth + 1)
+                    for sx in [st] + extra:
+                        self._drop_value(sx, Ref(ref.frame, ref.local, ref.path + (i,)), ft, fn, depth + 1)
+        return extra
 
     # ------------------------------------------------------------------ calls
     def call(self, callee, argv, st, fr, fn):
